@@ -267,10 +267,9 @@ noncomputable def cstrArg (k r fr fv : ℝ) : ℝ :=
 /-- `binary_irrev_cstr` with the constants `x7 = c`, `x1 = a` (= √fv), `x4 = b` (= √(fv + 8·k·fr)) as parameters -/
 noncomputable def cstrWith (c a b t k r p fr fp fv n : ℝ) : ℝ × ℝ :=
   (1 / k * (-fv + a * b * Real.tanh (t * (a * b / 2) - c)) / 4,
-   1 / k * (fv * (n * Real.exp (fv * t)) + 8 * k * p + r * (4 * k * n)
-        - a * (n * Real.exp (fv * t)) * b * Real.tanh (a * b / 2 * (t - 2 * c / (a * b)))
-        + fr * (4 * k * n) * Real.exp (fv * t) - fr * (4 * k * n) + Real.exp (fv * t) * (fp * (8 * k)) - fp * (8 * k))
-      * Real.exp (-(fv * t)) / 8)
+   1 / k * (fv * n + (8 * k * p + r * (4 * k * n) - fr * (4 * k * n) - fp * (8 * k)) * Real.exp (-(fv * t))
+        - a * n * b * Real.tanh (a * b / 2 * (t - 2 * c / (a * b)))
+        + fr * (4 * k * n) + fp * (8 * k)) / 8)
 
 theorem binaryIrrevCstr_eq_with (t k r p fr fp fv n : ℝ) :
     binaryIrrevCstr t k r p fr fp fv n
@@ -298,26 +297,18 @@ theorem cstrWith_snd_hasDerivAt (c a b t k r p fr fp fv n : ℝ) (hk : k ≠ 0) 
     HasDerivAt (fun s => (cstrWith c a b s k r p fr fp fv n).2)
       (fv * fp + n * k * (cstrWith c a b t k r p fr fp fv n).1 ^ 2 - fv * (cstrWith c a b t k r p fr fp fv n).2) t := by
   simp only [cstrWith]
-  have hE := hasDerivAt_exp_lin (g := fun s => fv * s) fv t (fun s => rfl)
   have hEn := hasDerivAt_exp_lin (g := fun s => -(fv * s)) (-fv) t (fun s => by ring)
   have hlin : HasDerivAt (fun s : ℝ => a * b / 2 * (s - 2 * c / (a * b))) (a * b / 2) t := by
     simpa using ((hasDerivAt_id t).sub_const (2 * c / (a * b))).const_mul (a * b / 2)
   have hT := hlin.tanh
-  have t1 := (hE.const_mul n).const_mul fv
-  have t4 := (((hE.const_mul n).const_mul a).mul_const b).mul hT
-  have t5 := hE.const_mul (fr * (4 * k * n))
-  have t7 := hE.mul_const (fp * (8 * k))
-  have hG := ((((((t1.add_const (8 * k * p)).add_const (r * (4 * k * n))).sub t4).add t5).sub_const (fr * (4 * k * n))).add t7).sub_const
-    (fp * (8 * k))
-  have h := (((hG.const_mul (1 / k)).mul hEn)).div_const 8
+  have hG := ((((hEn.const_mul (8 * k * p + r * (4 * k * n) - fr * (4 * k * n) - fp * (8 * k))).const_add (fv * n)).sub
+    (hT.const_mul (a * n * b))).add_const (fr * (4 * k * n))).add_const (fp * (8 * k))
+  have h := (hG.const_mul (1 / k)).div_const 8
   refine h.congr_deriv ?_
   have harg : a * b / 2 * (t - 2 * c / (a * b)) = t * (a * b / 2) - c := by field_simp
-  simp only [Pi.add_apply, Pi.sub_apply, Pi.mul_apply]
+  try simp only [Pi.add_apply, Pi.sub_apply, Pi.mul_apply]
   rw [harg]
-  have hEne : Real.exp (-(fv * t)) = (Real.exp (fv * t))⁻¹ := Real.exp_neg _
-  rw [hEne]
-  have hE0 : Real.exp (fv * t) ≠ 0 := (Real.exp_pos _).ne'
-  generalize Real.exp (fv * t) = E at hE0 ⊢
+  generalize Real.exp (-(fv * t)) = E
   generalize Real.tanh (t * (a * b / 2) - c) = T
   subst ha
   obtain rfl : fr = (b ^ 2 - a ^ 2) / (8 * k) := by field_simp; linarith
